@@ -34,6 +34,7 @@ type job struct {
 	scope string
 	bound int // highest fault bound this job takes part in
 	base  bool // program without extra action (non-vacuity counters are taken on these)
+	der   int  // handle derivation used by the blocks
 }
 
 type agg struct {
@@ -47,6 +48,7 @@ type agg struct {
 	faultsByClass                                   sync.Map
 	unrecorded                                      int64
 	actExec                                         [numActs]int64
+	derExec                                         [numDerive]int64
 	handleErrFailed, handleErrSurfaced              int64
 }
 
@@ -67,7 +69,7 @@ func replayMain(run *mc.Run, path string) {
 		}
 		x := mc.NewExec(c.Choices)
 		o := execTree(&c, x)
-		fmt.Printf("program: %s\nconfig:  %s\nfault scope: %s, choices %v\n", c.Prog, cfgString(c.Cfg, c.Dial), c.Scope, c.Choices)
+		fmt.Printf("program: %s\nconfig:  %s\nstatements through: %s\nfault scope: %s, choices %v\n", c.Prog, cfgString(c.Cfg, c.Dial), deriveName[c.Derive], c.Scope, c.Choices)
 		fmt.Println(strings.Join(o.Log, "\n"))
 		fmt.Printf("outcome %s; table after the outermost block %s, reference %s\n", o.Outcome, keyList(o.Observed), keyList(o.Final))
 		if x.Diverged != "" {
@@ -85,9 +87,9 @@ func replayMain(run *mc.Run, path string) {
 			fmt.Fprintln(os.Stderr, "HARNESS-ERROR:", err)
 			os.Exit(3)
 		}
-		w := &mworker{cfg: c.Cfg, dial: c.Dial}
+		w := &mworker{cfg: c.Cfg, dial: c.Dial, der: c.Derive}
 		r := w.step(c.Ops, c.Fault)
-		fmt.Printf("sequence: %s\nfault point in last operation: %d (injected: %v)\nconfig:   %s\n%s\n", opsString(c.Ops), c.Fault, r.injected, cfgString(c.Cfg, c.Dial), strings.Join(r.log, "\n"))
+		fmt.Printf("sequence: %s\nfault point in last operation: %d (injected: %v)\nconfig:   %s\nwrites through: %s\n%s\n", opsString(c.Ops), c.Fault, r.injected, cfgString(c.Cfg, c.Dial), deriveName[c.Derive], strings.Join(r.log, "\n"))
 		if r.harnessErr != "" {
 			fmt.Fprintln(os.Stderr, "HARNESS-ERROR:", r.harnessErr)
 			os.Exit(3)
@@ -122,7 +124,7 @@ func main() {
 	if thorough {
 		manualDepth = 6
 	}
-	type mkey struct{ cfg, dial int }
+	type mkey struct{ cfg, der int }
 	mres := map[mkey]*manualResult{}
 	var mmu sync.Mutex
 	var mwg sync.WaitGroup
@@ -134,19 +136,32 @@ func main() {
 	manualCapped := 0
 	// the manual part injects no SAVEPOINT faults, so the strict dialector
 	// would only differ for RollbackTo on a missing name (a caller error)
-	manualDials := 1
-	for cfg := 0; cfg < 8; cfg++ {
-		for dial := 0; dial < manualDials; dial++ {
-			mwg.Add(1)
-			go func(cfg, dial int) {
-				defer mwg.Done()
-				r := bfs(cfg, dial, manualDepth, manualDeadline)
+	// (shipped dialector only). Writes go through tx itself (full depth) or
+	// through each derived handle (two operations less). 8 worker goroutines.
+	type mjob struct{ cfg, der int }
+	mjobs := make(chan mjob, 8*numDerive)
+	for der := 0; der < numDerive; der++ {
+		for cfg := 0; cfg < 8; cfg++ {
+			mjobs <- mjob{cfg, der}
+		}
+	}
+	close(mjobs)
+	for wk := 0; wk < 8; wk++ {
+		mwg.Add(1)
+		go func() {
+			defer mwg.Done()
+			for j := range mjobs {
+				d := manualDepth
+				if j.der != derNone {
+					d -= 2
+				}
+				r := bfs(j.cfg, dialStock, j.der, d, manualDeadline)
 				mmu.Lock()
-				mres[mkey{cfg, dial}] = r
+				mres[mkey{j.cfg, j.der}] = r
 				manualEnd = time.Now()
 				mmu.Unlock()
-			}(cfg, dial)
-		}
+			}
+		}()
 	}
 	// ------------------------------------------------------------------ part 1
 	progs, raw := allPrograms(4, 4)
@@ -158,14 +173,14 @@ func main() {
 	for pi, p := range progs {
 		for cfg := 0; cfg < 8; cfg++ {
 			// the shipped dialector: every fault point
-			jobs = append(jobs, job{p, pi, cfg, dialStock, "all", bound, true})
+			jobs = append(jobs, job{p, pi, cfg, dialStock, "all", bound, true, derNone})
 			// the strict dialector differs only when a SAVEPOINT statement
 			// fails: quick enumerates exactly those faults, thorough everything
 			if cfg&cfgNoNested == 0 && p.size() > 1 {
 				if thorough {
-					jobs = append(jobs, job{p, pi, cfg, dialStrict, "all", bound, true})
+					jobs = append(jobs, job{p, pi, cfg, dialStrict, "all", bound, true, derNone})
 				} else {
-					jobs = append(jobs, job{p, pi, cfg, dialStrict, "savepoint", bound, true})
+					jobs = append(jobs, job{p, pi, cfg, dialStrict, "savepoint", bound, true, derNone})
 				}
 			}
 		}
@@ -189,15 +204,43 @@ func main() {
 			jb = bound
 		}
 		for cfg := 0; cfg < 8; cfg++ {
-			actJobs = append(actJobs, job{p, len(progs) + ai, cfg, dialStock, "all", jb, false})
+			actJobs = append(actJobs, job{p, len(progs) + ai, cfg, dialStock, "all", jb, false, derNone})
 			var act int
 			p.preorder(func(b *Block) { act += b.Act })
 			if act == actManualSP || act == actRTUnknown {
-				actJobs = append(actJobs, job{p, len(progs) + ai, cfg, dialStrict, "all", jb, false})
+				actJobs = append(actJobs, job{p, len(progs) + ai, cfg, dialStrict, "all", jb, false, derNone})
 			}
 		}
 	}
-	jobs = append(actJobs, jobs...)
+	// handle derivations inside blocks: every block issues its statements
+	// through a handle derived from its tx (deriveName). Fault bound by tree
+	// size as for the block actions: quick = <=3 blocks fault-free, <=2 blocks
+	// <=1 fault; thorough = <=4 blocks fault-free, <=3 blocks <=1 fault, <=2
+	// blocks <=2 faults; plus the block-action programs of <=2 blocks, fault-free.
+	var derJobs []job
+	for der := 1; der < numDerive; der++ {
+		for pi, p := range progs {
+			jb := actBlocks - p.size()
+			if jb < 0 {
+				continue
+			}
+			if jb > bound {
+				jb = bound
+			}
+			for cfg := 0; cfg < 8; cfg++ {
+				derJobs = append(derJobs, job{p, pi, cfg, dialStock, "all", jb, false, der})
+			}
+		}
+		for ai, p := range actProgs {
+			if p.size() > 2 {
+				continue
+			}
+			for cfg := 0; cfg < 8; cfg++ {
+				derJobs = append(derJobs, job{p, len(progs) + ai, cfg, dialStrict, "all", 0, false, der})
+			}
+		}
+	}
+	jobs = append(append(actJobs, derJobs...), jobs...)
 	var deadline time.Time
 	if thorough {
 		deadline = start.Add(9 * time.Minute)
@@ -243,7 +286,7 @@ func main() {
 						continue
 					}
 					mk := func(x *mc.Exec) *TreeCase {
-						return &TreeCase{Part: "tree", Prog: j.prog.clone(), Cfg: j.cfg, Dial: j.dial, Scope: j.scope}
+						return &TreeCase{Part: "tree", Prog: j.prog.clone(), Cfg: j.cfg, Dial: j.dial, Scope: j.scope, Derive: j.der}
 					}
 					e := &mc.Explorer{Bound: eb, Workers: 1, Deadline: deadline,
 						Run: func(x *mc.Exec) interface{} { return execTree(mk(x), x) },
@@ -264,6 +307,9 @@ func main() {
 							if int64(len(x.Points)) <= m || atomic.CompareAndSwapInt64(&a.maxDepth, m, int64(len(x.Points))) {
 								break
 							}
+						}
+						if j.der != derNone {
+							atomic.AddInt64(&a.derExec[j.der], 1)
 						}
 						if o.Act != actNone {
 							atomic.AddInt64(&a.actExec[o.Act], 1)
@@ -289,7 +335,7 @@ func main() {
 						}
 						if o.Failed > 0 || o.NotEntered > 0 {
 							// non-trivial: something failed, so something had to be undone or passed on
-							if distinct.Add(hash64(fmt.Sprintf("%d|%d|%d|%s", j.pi, j.cfg, j.dial, strings.Join(o.Trace, ";")))) {
+							if distinct.Add(hash64(fmt.Sprintf("%d|%d|%d|%d|%s", j.pi, j.cfg, j.dial, j.der, strings.Join(o.Trace, ";")))) {
 								if len(o.Classes) > 0 && o.Restored > 0 && len(o.Final) > 0 {
 									samples.Add(map[string]interface{}{"program": j.prog.String(), "config": cfgString(j.cfg, j.dial),
 										"faults": o.Faults, "reference_trace": o.Trace, "final_table": o.Final, "returned": o.Outcome})
@@ -306,7 +352,7 @@ func main() {
 						}
 						c := mk(x)
 						c.Choices = x.ChoiceInts()
-						c.Readable = c.Prog.String() + " :: " + cfgString(c.Cfg, c.Dial)
+						c.Readable = c.Prog.String() + " :: " + cfgString(c.Cfg, c.Dial) + " statements through " + deriveName[c.Derive]
 						c.Faults = o.Faults
 						if atomic.AddInt64(&rechecks, 1) <= 8 {
 							fp := o.fingerprint()
@@ -324,7 +370,7 @@ func main() {
 							return
 						}
 						msg := fmt.Sprintf("%s\nprogram %s\n%s\nfaults: %s\n%s\nreturned %s; table %s, reference %s\nlog:\n  %s",
-							o.Kind, c.Prog, cfgString(c.Cfg, c.Dial), strings.Join(o.Faults, " + "), o.Detail, o.Outcome,
+							o.Kind, c.Prog, cfgString(c.Cfg, c.Dial)+"; statements through "+deriveName[c.Derive], strings.Join(o.Faults, " + "), o.Detail, o.Outcome,
 							keyList(o.Observed), keyList(o.Final), strings.Join(o.Log, "\n  "))
 						run.Violation(treeTags(c, o), msg, c)
 					}
@@ -360,8 +406,9 @@ func main() {
 	var mSamples []interface{}
 	mPerCfg := map[string]interface{}{}
 	for cfg := 0; cfg < 8; cfg++ {
-		for dial := 0; dial < manualDials; dial++ {
-			r := mres[mkey{cfg, dial}]
+		for der := 0; der < numDerive; der++ {
+			dial := dialStock
+			r := mres[mkey{cfg, der}]
 			if r.harnessErr != "" {
 				run.HarnessError("manual BFS (%s): %s", cfgString(cfg, dial), r.harnessErr)
 			}
@@ -377,16 +424,19 @@ func main() {
 					mSamples = append(mSamples, s)
 				}
 			}
-			mPerCfg[cfgString(cfg, dial)] = map[string]interface{}{"states": r.states, "transitions": r.transitions, "states_per_depth": r.statesPerDepth, "states_with_live_save_point": r.withSavepoints}
+			mPerCfg[cfgString(cfg, dial)+" writes through "+deriveName[der]] = map[string]interface{}{"states": r.states, "transitions": r.transitions, "states_per_depth": r.statesPerDepth, "states_with_live_save_point": r.withSavepoints}
 			for _, v := range r.viol {
 				tags := []string{"part:manual", "dialector:" + dialName[dial]}
+				if der != derNone {
+					tags = append(tags, "derive:"+deriveName[der])
+				}
 				if v.c.Fault > 0 {
 					tags = append(tags, "fault-in-last-op")
 				}
 				for _, o := range v.c.Ops {
 					tags = append(tags, "op:"+opName[o])
 				}
-				run.Violation(dedup(tags), fmt.Sprintf("%s\n%s\n%s\n%s\nlog:\n  %s", v.kind, v.c.Readable, cfgString(cfg, dial), v.detail, strings.Join(v.log, "\n  ")), v.c)
+				run.Violation(dedup(tags), fmt.Sprintf("%s\n%s\n%s\n%s\nlog:\n  %s", v.kind, v.c.Readable, cfgString(cfg, dial)+"; writes through "+deriveName[der], v.detail, strings.Join(v.log, "\n  ")), v.c)
 			}
 		}
 	}
@@ -411,6 +461,11 @@ func main() {
 				run.HarnessError("vacuous: only %d executions with the block action %s", a.actExec[act], actName[act])
 			}
 		}
+		for der := 1; der < numDerive; der++ {
+			if a.derExec[der] < 1000 {
+				run.HarnessError("vacuous: only %d executions with statements through %s", a.derExec[der], deriveName[der])
+			}
+		}
 		if a.handleErrFailed < 500 {
 			run.HarnessError("vacuous: only %d blocks failed while their own handle carried an error", a.handleErrFailed)
 		}
@@ -425,7 +480,7 @@ func main() {
 	run.Assume("dialector 'strict-savepoint' = gorm.io/driver/sqlite v1.5.6 with SavePoint/RollbackTo returning the statement's error (as the MySQL dialector does); the shipped SQLite dialector drops it, so gorm's own handling of a failed SavePoint is only reachable through the wrapper")
 	run.Assume("Transaction/Begin are called on the root *gorm.DB handle; writes are single-row Create calls, reads are Find; TxOptions and contexts with deadlines are outside the alphabet; SQLite's own SAVEPOINT stack is trusted")
 	run.Assume("RollbackTo on a name without a live save point must change nothing; whether it reports an error is not checked; the manual part runs on the shipped dialector only and injects faults at BEGIN / COMMIT / data statements (not SAVEPOINT) of the last operation of each sequence")
-	rule := fmt.Sprintf("part 1: all labelled trees of nested Transaction blocks with <=4 blocks, depth <=4 (%d labelled trees, %d after removing code that can never run), each block = write; {child; read}*; write; outcome nil/error/panic, parent propagates or swallows (recovers) each child's failure; x 8 configurations {PrepareStmt, DisableNestedTransaction, SkipDefaultTransaction}; each pair explored by the E1 explorer with every combination of <=%d injected driver faults over all BEGIN, COMMIT, SAVEPOINT, prepare/exec/query calls (shipped dialector) and additionally with the strict-savepoint dialector (quick: SAVEPOINT faults only); in addition programs in which one block performs an extra action on its own handle after its second write (tx.AddError(marker) | a statement failing on a duplicate key | tx.SavePoint(m); write; tx.RollbackTo(m) | tx.RollbackTo(unknown name)), both dialectors, trees of <=%d blocks (fault bound shrinking with tree size, see executions_with_block_action); oracle in lock-step: snapshot-stack model, errors.Is/identical panic value at every Transaction call, reads inside blocks, final table, leaks, follow-up write. distinct_nontrivial = distinct (program, configuration, reference trace) with at least one failing or fault-blocked block. part 2: BFS over Begin + sequences of <=%d operations from %v per configuration (shipped dialector), de-duplicated on the canonical implementation state (table inside the transaction + error stored on the handle + recursively probed save point stack), compared with the reference state at every transition; every transition is repeated with a fault at each BEGIN / COMMIT / data-statement driver call of its last operation, followed by a usability probe (write; Commit)", raw, nProg, bound, actBlocks, manualDepth, opName)
+	rule := fmt.Sprintf("part 1: all labelled trees of nested Transaction blocks with <=4 blocks, depth <=4 (%d labelled trees, %d after removing code that can never run), each block = write; {child; read}*; write; outcome nil/error/panic, parent propagates or swallows (recovers) each child's failure; x 8 configurations {PrepareStmt, DisableNestedTransaction, SkipDefaultTransaction}; each pair explored by the E1 explorer with every combination of <=%d injected driver faults over all BEGIN, COMMIT, SAVEPOINT, prepare/exec/query calls (shipped dialector) and additionally with the strict-savepoint dialector (quick: SAVEPOINT faults only); in addition programs in which one block performs an extra action on its own handle after its second write (tx.AddError(marker) | a statement failing on a duplicate key | tx.SavePoint(m); write; tx.RollbackTo(m) | tx.RollbackTo(unknown name)), both dialectors, trees of <=%d blocks (fault bound shrinking with tree size, see executions_with_block_action); and programs in which every block issues its statements through a handle derived from its tx (%v); oracle in lock-step: snapshot-stack model, errors.Is/identical panic value at every Transaction call, reads inside blocks, final table, leaks, follow-up write. distinct_nontrivial = distinct (program, configuration, reference trace) with at least one failing or fault-blocked block. part 2: BFS over Begin + sequences of <=%d operations from %v per configuration (shipped dialector) with the writes going through tx itself, and with two operations less through each derived handle, de-duplicated on the canonical implementation state (table inside the transaction + error stored on the handle + recursively probed save point stack), compared with the reference state at every transition; every transition is repeated with a fault at each BEGIN / COMMIT / data-statement driver call of its last operation, followed by a usability probe (write; Commit)", raw, nProg, bound, actBlocks, deriveName[1:], manualDepth, opName)
 	cov := map[string]interface{}{
 		"evaluations":         a.executions + int64(mTrans) + int64(mFaulted),
 		"distinct_nontrivial": distinct.Len(),
@@ -450,6 +505,7 @@ func main() {
 		"nv_programs_partial_rollback_nested_on":  partialOn,
 		"nv_programs_partial_rollback_nested_off": partialOff,
 		"nv_executions_partial_rollback":          a.partialExec,
+		"executions_with_derived_handle": derMap(a.derExec[:]),
 		"programs_with_block_action":    len(actProgs),
 		"executions_with_block_action":  map[string]int64{actName[1]: a.actExec[1], actName[2]: a.actExec[2], actName[3]: a.actExec[3], actName[4]: a.actExec[4]},
 		"nv_blocks_failed_with_error_on_own_handle": a.handleErrFailed,
@@ -473,6 +529,14 @@ func main() {
 		run.HarnessError("coverage not serialisable: %v", err)
 	}
 	run.Finish(cov)
+}
+
+func derMap(c []int64) map[string]int64 {
+	m := map[string]int64{}
+	for d := 1; d < numDerive; d++ {
+		m[deriveName[d]] = c[d]
+	}
+	return m
 }
 
 func dedup(in []string) []string {
